@@ -128,12 +128,35 @@ class World:
 
 def scenario(rng, w):
     """structured multi-step histories that random choice rarely assembles"""
-    kind = rng.choice(["reconfirm", "hostchange", "aba", "reprobe-update", "late-conflicts", "late-conflicts", "reprobe-conflict-update"])
+    kind = rng.choice(["reconfirm", "hostchange", "aba", "reprobe-update", "late-conflicts", "late-conflicts", "reprobe-conflict-update",
+                       "alt-reprobe-conflict"])
     if kind == "reprobe-conflict-update":
         w.conflict_host_exact()     # registers under the -2 candidate first, so that the re-probe half an hour later changes the hostname
     w.lines.append("ADV 2000")
     w.now = 2000
     w.update()
+    if kind == "alt-reprobe-conflict":
+        # the requested name is taken, the provider settles on the -2 alternative; half an hour later the hostname changes and
+        # the service is probed again: whatever is defended then, the alternatives must remain name-2, name-3, ... of the
+        # requested name (never alternatives of an alternative)
+        w.conflict_service_exact()
+        w.settle()
+        w.now = 1802000
+        w.lines.append("ADV %d" % w.now)
+        w.hk = 1
+        w.conflict_host_exact()
+        w.now = 1804000 + rng.choice([0, 1, 500, 1500])
+        w.lines.append("ADV %d" % w.now)
+        w.sk = 1
+        for _ in range(rng.choice([1, 1, 2, 3])):
+            k = rng.choice([1, 2, 2, w.sk])
+            w.lines.append("DELIVER 4:3232235777|5353|0|1|0||" + srv_rec(inst(w.last[0], w.last[1], k)))
+            if rng.random() < 0.5:
+                w.now += rng.choice([1, 300, 1000])
+                w.lines.append("ADV %d" % w.now)
+        w.settle()
+        w.query()
+        return
     if kind == "reprobe-conflict-update":
         # the hostname changes at the 30-minute re-probe: the provider re-probes the name it serves; a peer defends that name
         # and then update() repeats the requested name while the probe for the next candidate is pending
@@ -200,9 +223,13 @@ def scenario(rng, w):
 
 
 def gen_script(rng, nops, focus):
+    if focus != "C11" and rng.random() < 0.03:
+        return late_provider_script(rng)
     w = World(rng, rng.choice(["vm", "vm", "my.host"]))
     if rng.random() < 0.3:
         scenario(rng, w)
+        if rng.random() < 0.4:
+            nops = 0            # let the history end here, so that the end-of-history rules judge what the scenario produced
     for _ in range(nops):
         r = rng.random()
         if not w.alive:
@@ -243,9 +270,49 @@ def gen_script(rng, nops, focus):
     return w.lines
 
 
+CYCLE = 1802000     # hostname: registered 2 s after each (re-)probe, re-probed 30 min after each registration
+
+
+def created_during_reassertion(s):
+    """the provider is created, and last updated, while the hostname object is re-asserting its name (unregistered for 2 s every
+    30 minutes), and nothing in the script makes the hostname change: the re-registration is then silent"""
+    now, created_in, last_update_in = 0, None, None
+    for l in s.lines:
+        w = l.split()
+        if not w:
+            continue
+        if w[0] in ("ADV", "ADVB", "LATE"):
+            now = max(now, int(w[1]))
+        elif w[0] == "NEW" and w[1] == "1":
+            created_in = now >= CYCLE and now % CYCLE < 2000
+        elif w[0] == "UPDATE":
+            last_update_in = now >= CYCLE and now % CYCLE < 2000
+        elif w[0] == "DELIVER":
+            f = w[1].split("|")
+            if len(f) == 7 and f[3] == "1" and any(len(r.split(",")) == 12 and r.split(",")[1] in ("1", "28") for r in f[6].split(";")):
+                return False
+    return bool(created_in and last_update_in)
+
+
 def signature(kind, detail, s):
     m = re.search(r"code=(\d+)", detail or "")
+    if m and m.group(1) == "30" and created_during_reassertion(s):
+        return "%s:30:created-during-reassertion" % kind
     return "%s:%s" % (kind, m.group(1)) if m else kind
+
+
+def late_provider_script(rng):
+    """a provider created (and updated) around the hostname's re-assertion window"""
+    k = rng.choice([1, 1, 2])
+    t = k * CYCLE + rng.choice([-5000, -1, 0, 1, 500, 1999, 2000, 2001, 60000])
+    lines = ["HOSTNAME " + hexs("vm"), "NEW 0 hostname", "ADV %d" % t, "NEW 1 provider 0"]
+    if rng.random() < 0.5:
+        t += rng.choice([0, 1, 300])
+        lines.append("ADV %d" % t)
+    lines.append("UPDATE 1 " + svc(rng.choice(NAMES), rng.choice(TYPES), rng.choice([80, 631]), rng.choice(["_", "6b=76"])))
+    t += 9000
+    lines += ["ADV %d" % t, "DELIVER 4:3232235777|5353|7|0|0|%s,12,0|" % hexs(BROWSE)]
+    return lines
 
 
 def explore(ctx, focus, mon_engine, attribute, replay=None, search_boost=False, project=None):
